@@ -237,6 +237,10 @@ def run(ctx):
         "runs of blanks and newlines between words are generated; characters exist in the font",
         "space-factor codes are 0..32767 and glue components stay far below 2^30 / 33, so that xn_over_d (107) never "
         "sets arith_error (boxworks-text unwraps there; TeX carries on with a garbage value)",
+        "paragraphs whose summed |width|, |stretch| or |shrink| (per order, skips counted once per node) reach 2^30 sp "
+        "are generated but not run (counted as skipped_totals_beyond_max_dimen): TeX adds these totals in 32-bit "
+        "integers without a check (TeX.2021.104), so such a paragraph has no defined meaning; reachable because a "
+        "space factor of 1 multiplies the shrink of \\spaceskip / \\xspaceskip by 1000 (TeX.2021.1044)",
         "the hyphen character of every font is '-' (plain TeX's \\defaulthyphenchar; boxworks-text hard-codes it)",
         "kern amounts and the lig/kern programs' semantics are C05's property: here only 'characters and ligature "
         "originals spell the word', node kinds, fonts and the discretionary after a hyphen are decided",
